@@ -358,9 +358,10 @@ PROPS['C15'] = dict(
          'bytes from the front of owed to the end of the wire and changes nothing else (C15_engine_step_conserves: '
          'wire\' ++ owed\' = wire ++ owed); so a drain that comes to its end has written exactly owed for EVERY script of partial '
          'writes (C15_drain_writes_owed_any_fragmentation; C15_drain_writes_owed_every_state without any assumption on the '
-         'keep-alive timers; both for transports whose writes take no virtual time - Calm, part of PQ - with arbitrary fragmentation; schedules '
-         'in which time passes inside write(), script kinds 4/5, are covered by the one-step law, by C01\'s packet-boundary theorem and by the '
-         '"slow first write" twins) - the outbound byte stream is a function of the queues, not of the fragmentation. Partial only in that the equality of the RESULTS of two whole programs under different fragmentations '
+         'keep-alive timers; both for transports whose writes take no virtual time - Calm, part of PQ - with arbitrary fragmentation; and '
+         'C15_drain_every_transport with NO assumption on the script, slow writes - script kinds 4/5, time passing inside write() - included: '
+         'a PINGREQ falling due in the middle of the drain joins behind the entry in progress, at most one joins, and the drain has written '
+         'owed with at most one PINGREQ inserted) - the outbound byte stream is a function of the queues, not of the fragmentation. Partial only in that the equality of the RESULTS of two whole programs under different fragmentations '
          '(operations interleaved with inbound traffic and time) is checked on twin runs, not proved. '
          'Trusted: Coq kernel, model, extraction, harness, reader hook. No axioms.')
 
